@@ -2,7 +2,6 @@ package main
 
 import (
 	"go/token"
-	"strings"
 
 	"golang.org/x/tools/go/ssa"
 )
@@ -18,125 +17,15 @@ func flattenConcat(v ssa.Value) []ssa.Value {
 // c04R5: "the client address appended to X-Forwarded-For".
 func c04R5(h H) {
 	r := h.r
-	r.Rule("R5", "X-Forwarded-For: createUpstreamRequest sets X-Forwarded-For on the outgoing header under exactly 'the client address could be split from RemoteAddr'; the value is that address, preceded — exactly when the incoming request already carried the header — by all prior values joined with \", \" and one more \", \" (prior values first, in order, the client last)", 2)
-	fn := h.fn("R5", pxPkg, "createUpstreamRequest")
-	if fn == nil {
-		return
+	r.Rule("R5", "the outgoing request as a decision table (E10): createUpstreamRequest, evaluated with http.Request.WithContext modelled as the shallow copy it is, for every combination of Connection header {absent, close, naming X-Foo, naming X-Foo and keep-alive}, 0-2 prior X-Forwarded-For values, parsable/unparsable client address and empty/non-empty body: the client's own header map is never modified; no header of the hop-by-hop table and none named in Connection is forwarded while end-to-end headers are; X-Forwarded-For is the prior values joined with \", \" followed by the client address (unchanged when the address cannot be split); the body is nil exactly for an empty body", 3)
+	cow, hop, xff, other, n := c04Req(h, "R5")
+	fn := h.p.Func(pxPkg, "createUpstreamRequest")
+	pos := token.NoPos
+	if fn != nil {
+		pos = fn.Pos()
 	}
-	isRemoteAddr := func(v ssa.Value) bool {
-		u, ok := v.(*ssa.UnOp)
-		return ok && readsField(u, "RemoteAddr")
-	}
-	isClientIP := func(v ssa.Value) bool {
-		ex, ok := v.(*ssa.Extract)
-		if !ok || ex.Index != 0 {
-			return false
-		}
-		c, ok := ex.Tuple.(*ssa.Call)
-		return ok && calleeName(&c.Call) == "net.SplitHostPort" && isRemoteAddr(c.Call.Args[0])
-	}
-	sets := findCalls(fn, func(in ssa.Instruction) bool {
-		c := callOf(in)
-		if c == nil || c.IsInvoke() || calleeName(c) != "(net/http.Header).Set" {
-			return false
-		}
-		k, ok := constString(c.Args[1])
-		return ok && k == "X-Forwarded-For"
-	})
-	if len(sets) == 0 {
-		r.Check(false, "R5", "proxy.createUpstreamRequest/sets-xff", fn.Pos(), "the outgoing request gets an X-Forwarded-For header")
-		return
-	}
-	for k, s := range sets {
-		c := callOf(s)
-		// guards: only the error test of the split (flags that merely select copy-on-write are not guards of the Set)
-		var extra []string
-		splitOK := false
-		for _, g := range guardAtoms(fn, nil, s) {
-			if g.If != nil {
-				if lp := naturalLoop(g.If.Block()); len(lp) > 0 {
-					idx := 1
-					if g.True {
-						idx = 0
-					}
-					if !lp[g.If.Block().Succs[idx]] {
-						continue // an earlier loop ran to its end
-					}
-				}
-			}
-			if x, nilWhenTrue, ok := nilCmp(g.Cond); ok {
-				if ex, isEx := x.(*ssa.Extract); isEx && ex.Index == 2 {
-					if call, isC := ex.Tuple.(*ssa.Call); isC && calleeName(&call.Call) == "net.SplitHostPort" && g.Pos == nilWhenTrue {
-						splitOK = true
-						continue
-					}
-				}
-			}
-			extra = append(extra, describe(g.Cond))
-		}
-		r.Check(splitOK && len(extra) == 0, "R5", sprintf("proxy.createUpstreamRequest/xff-set-whenever-address-known#%d", k+1), s.Pos(),
-			"the header is set whenever (and only when) RemoteAddr could be split into host and port — under no further condition", extra...)
-		// value forms
-		ok := true
-		var facts []string
-		leaves, direct := phiLeaves(c.Args[2])
-		type lv struct {
-			v  ssa.Value
-			gs []guardInfo
-		}
-		var vals []lv
-		for _, l := range leaves {
-			vals = append(vals, lv{l.V, phiEdgeGuards(fn, l.Phi, l.K)})
-		}
-		for _, d := range direct {
-			vals = append(vals, lv{d, nil})
-		}
-		sawPlain, sawPrior := false, false
-		for _, x := range vals {
-			facts = append(facts, describe(x.v))
-			if isClientIP(x.v) {
-				sawPlain = true
-				continue
-			}
-			ops := flattenConcat(x.v)
-			if len(ops) != 3 || !isClientIP(ops[2]) {
-				ok = false
-				continue
-			}
-			sep, isSep := constString(ops[1])
-			j, isJoin := ops[0].(*ssa.Call)
-			if !isSep || sep != ", " || !isJoin || calleeName(&j.Call) != "strings.Join" {
-				ok = false
-				continue
-			}
-			jsep, _ := constString(j.Call.Args[1])
-			var look *ssa.Lookup
-			derives(j.Call.Args[0], func(v ssa.Value) bool {
-				if l, isL := v.(*ssa.Lookup); isL {
-					if key, isK := constString(l.Index); isK && key == "X-Forwarded-For" && strings.HasSuffix(l.X.Type().String(), "net/http.Header") {
-						look = l
-					}
-				}
-				return false
-			}, flowOpts{})
-			if jsep != ", " || look == nil {
-				ok = false
-				continue
-			}
-			// only when the header was present
-			okv := commaOkOf(look)
-			present := false
-			for _, g := range x.gs {
-				if g.Cond == okv && g.Pos {
-					present = true
-				}
-			}
-			if okv != nil && !present {
-				ok = false
-			}
-			sawPrior = true
-		}
-		r.Check(ok && sawPlain && sawPrior, "R5", sprintf("proxy.createUpstreamRequest/xff-value#%d", k+1), s.Pos(),
-			"the value is the client address alone, or — when the request already had the header — the prior values joined with \", \" followed by \", \" and the client address", facts...)
-	}
+	facts := []string{sprintf("%d cases evaluated", n)}
+	r.Check(cow == "" && other == "", "R5", "proxy.createUpstreamRequest/client-header-untouched", pos, "the client's header map is shared with the shallow copy; every change goes to a fresh map", append(facts, cow, other)...)
+	r.Check(hop == "" && other == "", "R5", "proxy.createUpstreamRequest/hop-by-hop-removed", pos, "hop-by-hop headers and those named in Connection are removed, end-to-end headers are intact", append(facts, hop, other)...)
+	r.Check(xff == "" && other == "", "R5", "proxy.createUpstreamRequest/x-forwarded-for", pos, "the client address is appended to X-Forwarded-For", append(facts, xff, other)...)
 }
